@@ -282,6 +282,13 @@ func (in *inst) rewriteStmt(s ast.Stmt) []ast.Stmt {
 	var pre []ast.Stmt
 	pre = append(pre, in.pres(s)...)
 	in.funcLits(s)
+	if len(recvChans(s)) > 0 {
+		switch s.(type) {
+		case *ast.ExprStmt, *ast.AssignStmt, *ast.DeclStmt:
+			// the receiving side of a rendezvous parks again before it goes on (vsrt.Post)
+			return append(append(pre, s), stmt(call("Post")))
+		}
+	}
 	return append(pre, s)
 }
 
@@ -291,6 +298,28 @@ func isNilNode(n ast.Node) bool {
 	}
 	v := reflect.ValueOf(n)
 	return (v.Kind() == reflect.Ptr || v.Kind() == reflect.Interface) && v.IsNil()
+}
+
+// perLoopVars: the module's go directive is below 1.22, so the variables of a `for k, v := range` statement are
+// declared once per loop, not once per iteration (a closure created in the body sees later iterations' values);
+// the rewritten loops keep that
+var perLoopVars bool
+
+func goDirectiveBelow122(modfile string) bool {
+	b, err := os.ReadFile(modfile)
+	if err != nil {
+		fmt.Fprintln(os.Stderr, "instrument: cannot read", modfile, err)
+		os.Exit(2)
+	}
+	for _, l := range strings.Split(string(b), "\n") {
+		f := strings.Fields(l)
+		if len(f) == 2 && f[0] == "go" {
+			var major, minor int
+			fmt.Sscanf(f[1], "%d.%d", &major, &minor)
+			return major == 1 && minor < 22
+		}
+	}
+	return true // no go directive: language version 1.16
 }
 
 func (in *inst) rewriteMapRange(st *ast.RangeStmt) []ast.Stmt {
@@ -315,6 +344,21 @@ func (in *inst) rewriteMapRange(st *ast.RangeStmt) []ast.Stmt {
 		&ast.IfStmt{Cond: &ast.UnaryExpr{Op: token.NOT, X: ok}, Body: &ast.BlockStmt{List: []ast.Stmt{&ast.BranchStmt{Tok: token.CONTINUE}}}},
 		&ast.AssignStmt{Lhs: []ast.Expr{ast.NewIdent("_")}, Tok: token.ASSIGN, Rhs: []ast.Expr{v}},
 	)
+	var decl []ast.Stmt
+	if tok == token.DEFINE && perLoopVars && (!blank(st.Key) || !blank(st.Value)) {
+		// one variable per loop: declared in front of it (zero values of the map's key and element type)
+		lhs := []ast.Expr{ast.NewIdent("_"), ast.NewIdent("_")}
+		if !blank(st.Key) {
+			lhs[0] = st.Key
+			decl = append(decl, &ast.AssignStmt{Lhs: []ast.Expr{ast.NewIdent("_")}, Tok: token.ASSIGN, Rhs: []ast.Expr{st.Key}})
+		}
+		if !blank(st.Value) {
+			lhs[1] = st.Value
+			decl = append(decl, &ast.AssignStmt{Lhs: []ast.Expr{ast.NewIdent("_")}, Tok: token.ASSIGN, Rhs: []ast.Expr{st.Value}})
+		}
+		decl = append([]ast.Stmt{&ast.AssignStmt{Lhs: lhs, Tok: token.DEFINE, Rhs: []ast.Expr{call("ZeroKV", m)}}}, decl...)
+		tok = token.ASSIGN
+	}
 	if !blank(st.Key) {
 		prologue = append(prologue, &ast.AssignStmt{Lhs: []ast.Expr{st.Key}, Tok: tok, Rhs: []ast.Expr{k}})
 		if tok == token.DEFINE {
@@ -329,10 +373,10 @@ func (in *inst) rewriteMapRange(st *ast.RangeStmt) []ast.Stmt {
 	}
 	loop := &ast.RangeStmt{Key: ast.NewIdent("_"), Value: k, Tok: token.DEFINE, X: call("Order", site, m),
 		Body: &ast.BlockStmt{List: append(prologue, st.Body.List...)}}
-	return []ast.Stmt{&ast.BlockStmt{List: []ast.Stmt{
-		&ast.AssignStmt{Lhs: []ast.Expr{m}, Tok: token.DEFINE, Rhs: []ast.Expr{st.X}},
+	return []ast.Stmt{&ast.BlockStmt{List: append(append([]ast.Stmt{
+		&ast.AssignStmt{Lhs: []ast.Expr{m}, Tok: token.DEFINE, Rhs: []ast.Expr{st.X}}}, decl...),
 		loop,
-	}}}
+	)}}
 }
 
 func (in *inst) rewriteChanRange(st *ast.RangeStmt) []ast.Stmt {
@@ -342,19 +386,27 @@ func (in *inst) rewriteChanRange(st *ast.RangeStmt) []ast.Stmt {
 	list := []ast.Stmt{
 		stmt(call("Pre", kind("KRecv"), c)),
 		&ast.AssignStmt{Lhs: []ast.Expr{v, ok}, Tok: token.DEFINE, Rhs: []ast.Expr{&ast.UnaryExpr{Op: token.ARROW, X: c}}},
+		stmt(call("Post")),
 		&ast.IfStmt{Cond: &ast.UnaryExpr{Op: token.NOT, X: ok}, Body: &ast.BlockStmt{List: []ast.Stmt{&ast.BranchStmt{Tok: token.BREAK}}}},
 		&ast.AssignStmt{Lhs: []ast.Expr{ast.NewIdent("_")}, Tok: token.ASSIGN, Rhs: []ast.Expr{v}},
 	}
+	var decl []ast.Stmt
 	if st.Key != nil {
 		if id, isID := st.Key.(*ast.Ident); !isID || id.Name != "_" {
 			tok := st.Tok
+			if tok == token.DEFINE && perLoopVars {
+				// one variable per loop: declared in front of it (zero value of the channel's element type)
+				decl = append(decl, &ast.AssignStmt{Lhs: []ast.Expr{st.Key}, Tok: token.DEFINE, Rhs: []ast.Expr{call("ZeroElem", c)}},
+					&ast.AssignStmt{Lhs: []ast.Expr{ast.NewIdent("_")}, Tok: token.ASSIGN, Rhs: []ast.Expr{st.Key}})
+				tok = token.ASSIGN
+			}
 			list = append(list, &ast.AssignStmt{Lhs: []ast.Expr{st.Key}, Tok: tok, Rhs: []ast.Expr{v}})
 		}
 	}
-	return []ast.Stmt{&ast.BlockStmt{List: []ast.Stmt{
-		&ast.AssignStmt{Lhs: []ast.Expr{c}, Tok: token.DEFINE, Rhs: []ast.Expr{st.X}},
+	return []ast.Stmt{&ast.BlockStmt{List: append(append([]ast.Stmt{
+		&ast.AssignStmt{Lhs: []ast.Expr{c}, Tok: token.DEFINE, Rhs: []ast.Expr{st.X}}}, decl...),
 		&ast.ForStmt{Body: &ast.BlockStmt{List: append(list, st.Body.List...)}},
-	}}}
+	)}}
 }
 
 // rewriteSelect: channel and value expressions are evaluated first (as the language does), the
@@ -407,7 +459,11 @@ func (in *inst) rewriteSelect(st *ast.SelectStmt) []ast.Stmt {
 		default:
 			fail(in, c.Pos(), "unsupported select case")
 		}
-		sw.Body.List = append(sw.Body.List, &ast.CaseClause{List: []ast.Expr{&ast.BasicLit{Kind: token.INT, Value: fmt.Sprint(idx)}}, Body: append([]ast.Stmt{comm}, body...)})
+		swBody := []ast.Stmt{comm}
+		if _, isSend := comm.(*ast.SendStmt); !isSend {
+			swBody = append(swBody, stmt(call("Post")))
+		}
+		sw.Body.List = append(sw.Body.List, &ast.CaseClause{List: []ast.Expr{&ast.BasicLit{Kind: token.INT, Value: fmt.Sprint(idx)}}, Body: append(swBody, body...)})
 		orig.Body.List = append(orig.Body.List, &ast.CommClause{Comm: comm, Body: body})
 		idx++
 	}
@@ -468,6 +524,11 @@ func main() {
 	cfg := &packages.Config{Mode: packages.NeedName | packages.NeedFiles | packages.NeedCompiledGoFiles | packages.NeedSyntax | packages.NeedTypes | packages.NeedTypesInfo | packages.NeedImports | packages.NeedDeps, Dir: *repo}
 	if *modfile != "" {
 		cfg.BuildFlags = []string{"-modfile=" + *modfile}
+	}
+	if *modfile != "" {
+		perLoopVars = goDirectiveBelow122(*modfile)
+	} else {
+		perLoopVars = goDirectiveBelow122(filepath.Join(*repo, "go.mod"))
 	}
 	pkgs, err := packages.Load(cfg, flag.Args()...)
 	if err != nil {
